@@ -72,7 +72,7 @@ HENV = {"ASAN_OPTIONS": "detect_leaks=1:abort_on_error=0:allocator_may_return_nu
 
 def run_case(ctx, h, d, script, what):
     """-> (harness lines, driver lines, [failures])"""
-    rc, impl, err = ctx.run_lines(h, script, timeout=300, env=HENV)
+    rc, impl, err = ctx.run_lines(h, script, env=HENV)      # default limit + hang confirmation of Ctx.run_lines
     lines = script.splitlines()
     if rc != 0:
         return impl, [], [{"kind": "crash", "what": what + ": harness exit %d" % rc, "script": lines[:600],
@@ -83,7 +83,7 @@ def run_case(ctx, h, d, script, what):
     # ctx.driver_ok false but a driver binary exists: it is the last good build of the strict parser.
     # Driver/C03.lean imports only the Wire model (no Props, no Leaf, no proofs), so a broken theorem
     # never removes it; using it keeps the search for a concrete failing input alive.
-    rc2, model, err2 = ctx.run_lines(d, merged, timeout=300)
+    rc2, model, err2 = ctx.run_lines(d, merged)
     if rc2 != 0:
         return impl, model, [{"kind": "exact", "what": what + ": model driver exit %d" % rc2,
                               "script": lines[:600], "detail": err2}]
